@@ -1,11 +1,13 @@
 package main
 
 import (
+	"bytes"
 	"fmt"
 	"sort"
 	"sync"
 	"time"
 
+	"verif.local/harness/ev"
 	"verif.local/harness/hw"
 	"verif.local/harness/inject"
 	"verif.local/harness/sto"
@@ -37,6 +39,13 @@ type outcome struct {
 	StaleUnexplained int        `json:"stale_rows_without_failed_delete"`
 	DrainRestart     bool       `json:"drain_restart,omitempty"`
 	Schedules        []string   `json:"schedules,omitempty"`
+	Stall            *stall     `json:"stall,omitempty"`
+	ProbeUploads     int        `json:"probe_uploads"`
+	Expected         int        `json:"blobs_expected_at_destination"`
+	PrePopulated     int        `json:"pre_populated_source_blobs"`
+	QueueReopens     int        `json:"queue_file_reopens"`
+	ValidationShards int        `json:"validation_shards_processed"`
+	MaxPending       int        `json:"max_rows_pending_at_a_start"`
 	Log              []evt      `json:"log,omitempty"`
 	EffQueue         []effEvent `json:"effective_queue_mutations,omitempty"`
 	sigKind          string
@@ -157,7 +166,17 @@ func (w *world) drive(inc *incarnation, retry []sto.Blob, acked map[string]bool,
 		if it == 0 {
 			retry = append(retry, w.client(inc, []sto.Blob{newFiller(w.sc)}, false, acked, o)...)
 		}
-		if !inc.idleWait(idleWatchdog) {
+		idle, st, why := w.awaitIdle(inc, acked, idleWatchdog, func() {
+			// the loop does not go idle although nothing is pending: one more client upload
+			o.ProbeUploads++
+			retry = append(retry, w.client(inc, []sto.Blob{newFiller(w.sc)}, false, acked, o)...)
+		})
+		if st != nil {
+			o.Stall = st
+			return retry, false
+		}
+		if !idle {
+			o.Inconclusive = "IdleWait did not return within the watchdog and no closed wait cycle of the copy loop was established (" + why + ")"
 			return retry, true
 		}
 		used++
@@ -180,11 +199,16 @@ func execute(sc *scenario) *outcome {
 		o.Inconclusive = "world: " + err.Error()
 		return o
 	}
-	pending := make([]sto.Blob, 0, len(sc.History))
-	for _, i := range sc.History {
+	defer w.close()
+	pending := make([]sto.Blob, 0, len(sc.hist))
+	for _, i := range sc.hist {
 		pending = append(pending, sc.blobs[i])
 	}
 	acked := map[string]bool{}
+	if err := w.prePopulate(acked, o); err != nil {
+		o.Inconclusive = "pre-populating the stores: " + err.Error()
+		return o
+	}
 	var retry []sto.Blob
 	var last *incarnation
 	incs := append([]incSpec(nil), sc.Incs...)
@@ -192,8 +216,18 @@ func execute(sc *scenario) *outcome {
 	for i := 0; i < len(incs); i++ {
 		is := incs[i]
 		final := i == len(incs)-1
+		if rows, err := w.queueRows(); err == nil && len(rows) > o.MaxPending {
+			o.MaxPending = len(rows)
+		}
 		inc := w.start(is)
 		o.Incarnations++
+		if w.live != nil {
+			o.QueueReopens = w.live.reopens
+		}
+		if inc.harnessErr {
+			o.Inconclusive = "harness: " + inc.err.Error()
+			return o
+		}
 		if inc.err != nil {
 			// the constructor refused to start (queue unreadable, or the crash point lies in start-up)
 			o.Refused++
@@ -257,16 +291,39 @@ func execute(sc *scenario) *outcome {
 		}
 		retry = append(retry, failed...)
 
+		if is.HoldDst > 0 && (final || !is.CrashNow) {
+			// schedule control: the destination answers only once the copy workers are all inside it
+			// (the loop's feeder has then run as far as it goes without them); pacing, not a verdict
+			held := w.awaitHeld(inc, is.HoldDst)
+			time.Sleep(300 * time.Millisecond)
+			inc.fault["dst"].ReleaseAll()
+			if held > 0 {
+				o.Schedules = append(o.Schedules, "destination-held-until-workers-busy")
+			} else {
+				o.Schedules = append(o.Schedules, "hold-never-reached")
+			}
+		} else if is.HoldDst > 0 && w.awaitHeld(inc, 1) > 0 {
+			o.Schedules = append(o.Schedules, "destination-silent-until-crash")
+		}
+
 		if !final {
 			// the incarnation ends in a crash
 			if is.FreezeAt >= 0 && !is.CrashNow {
 				idle := make(chan struct{})
 				go func() { inc.sh.IdleWait(); close(idle) }()
+				got, st, _ := w.awaitOr(inc, acked, idleWatchdog, inc.frozenCh, idle, nil)
 				select {
-				case <-inc.frozenCh:
 				case <-idle:
 					o.IdleWaits++
-				case <-time.After(idleWatchdog):
+				default:
+				}
+				if !got && st != nil {
+					o.Stall = st
+					o.sigKind = sigKind(sc, o)
+					o.add("copy-loop-deadlock/"+o.sigKind, "%s", st.describe(inc.n, sc.Dest))
+					inc.freezeNow()
+					o.Log = tail(w.rec.snapshot(), 400)
+					return o
 				}
 			}
 			inc.freezeNow()
@@ -280,11 +337,35 @@ func execute(sc *scenario) *outcome {
 		}
 
 		// last incarnation: bounded progress, then the verdict
+		if is.Validate {
+			// the start-up validation is a logical step of its own: wait until the handler reports
+			// every shard processed (a watchdog firing is inconclusive)
+			done, total := 0, 0
+			ok := ev.WithTimeout(idleWatchdog, func() {
+				for {
+					if done, total = inc.validationProgress(); total > 0 && done == total {
+						return
+					}
+					time.Sleep(20 * time.Millisecond)
+				}
+			})
+			o.ValidationShards = done
+			if !ok {
+				o.Inconclusive = fmt.Sprintf("start-up validation did not finish within the watchdog (%d/%d shards)", done, total)
+				return o
+			}
+		}
 		var wd bool
 		retry, wd = w.drive(inc, retry, acked, o)
 		o.Faults = append(o.Faults, inc.deliveredFaults()...)
 		if wd {
-			o.Inconclusive = "IdleWait did not return within the watchdog"
+			return o
+		}
+		if o.Stall != nil {
+			o.sigKind = sigKind(sc, o)
+			o.add("copy-loop-deadlock/"+o.sigKind, "%s", o.Stall.describe(inc.n, sc.Dest))
+			inc.freezeNow()
+			o.Log = tail(w.rec.snapshot(), 400)
 			return o
 		}
 		last = inc
@@ -315,7 +396,13 @@ func execute(sc *scenario) *outcome {
 		}
 		_, wd := w.drive(inc, nil, acked, o)
 		if wd {
-			o.Inconclusive = "IdleWait did not return within the watchdog (drain restart)"
+			o.Inconclusive += " (drain restart)"
+			return o
+		}
+		if o.Stall != nil {
+			o.add("copy-loop-deadlock/"+o.sigKind, "%s", o.Stall.describe(inc.n, sc.Dest))
+			inc.freezeNow()
+			o.Log = tail(w.rec.snapshot(), 400)
 			return o
 		}
 		w.monitor(o)
@@ -329,8 +416,84 @@ func execute(sc *scenario) *outcome {
 			o.Log = o.Log[:400]
 		}
 		o.EffQueue = w.eff.snapshot()
+		if len(o.EffQueue) > 400 {
+			o.EffQueue = o.EffQueue[:400]
+		}
 	}
 	return o
+}
+
+func tail(evs []evt, n int) []evt {
+	if len(evs) > n {
+		return evs[len(evs)-n:]
+	}
+	return evs
+}
+
+// prePopulate puts the scenario's pre-existing blobs into the durable stores, below
+// every wrapper and before any handler exists.  The source blobs are expected at the
+// destination (the scenario's last incarnation runs the documented start-up recovery).
+func (w *world) prePopulate(expected map[string]bool, o *outcome) error {
+	sc := w.sc
+	if sc.PreSrc == 0 && len(sc.extra) == 0 {
+		return nil
+	}
+	dst, err := w.durableDst()
+	if err != nil {
+		return err
+	}
+	for i := 0; i < sc.PreSrc; i++ {
+		b := sc.blobs[i]
+		if _, err := w.srcMem.ReceiveBlob(ctxbg, b.Ref, bytes.NewReader(b.Data)); err != nil {
+			return err
+		}
+		w.bmu.Lock()
+		w.blobs[b.Ref.String()] = b
+		w.bmu.Unlock()
+		expected[b.Ref.String()] = true
+		o.PrePopulated++
+		if sc.PreDstEvery > 0 && i%sc.PreDstEvery == 0 {
+			if _, err := dst.ReceiveBlob(ctxbg, b.Ref, bytes.NewReader(b.Data)); err != nil {
+				return err
+			}
+		}
+	}
+	for _, b := range sc.extra {
+		if _, err := dst.ReceiveBlob(ctxbg, b.Ref, bytes.NewReader(b.Data)); err != nil {
+			return err
+		}
+	}
+	return nil
+}
+
+// awaitHeld waits (pacing only) until want destination writes of the incarnation are
+// waiting at the gate, or until the number waiting has stopped growing; it returns
+// how many wait.
+func (w *world) awaitHeld(inc *incarnation, want int) int {
+	open := func() int {
+		n := 0
+		for _, e := range w.rec.snapshot() {
+			if e.Inc == inc.n && e.Layer == "dst" && e.Op == "ReceiveBlob" && e.Ret == 0 {
+				n++
+			}
+		}
+		return n
+	}
+	deadline := time.Now().Add(20 * time.Second)
+	last, since := -1, time.Now()
+	for time.Now().Before(deadline) {
+		n := open()
+		if n >= want {
+			return n
+		}
+		if n != last {
+			last, since = n, time.Now()
+		} else if n > 0 && time.Since(since) > time.Second {
+			return n
+		}
+		time.Sleep(5 * time.Millisecond)
+	}
+	return open()
 }
 
 func sigKind(sc *scenario, o *outcome) string {
